@@ -114,6 +114,9 @@ def expand(item, seed):
                            {"op": "send", "kind": "text", "len": 8, "opcode": 10, "pseed": 8},
                            {"op": "send", "kind": "text", "len": 8, "opcode": 2, "pseed": 9}],
                    "key": key, "trace": False, "accept": [], "seed": 8}
+            for pk in ("send_timed_out", "big_send_timed_out"):
+                yield {"ops": [{"op": "send", "kind": "text", "len": 5, "opcode": 1, "pseed": 1}, {"op": "ping", "kind": "bytes", "len": 2, "pseed": 2}],
+                       "key": key, "trace": False, "accept": [], "seed": 11, "prior": pk}
             yield {"ops": [{"op": "send_frame", "kind": "bytes", "len": 7, "opcode": 2, "fin": 1, "pseed": 1, "again": "same"},
                            {"op": "send_frame", "kind": "bytes", "len": 200, "opcode": 2, "fin": 1, "pseed": 2, "again": "new_data"}],
                    "key": key, "trace": False, "accept": [], "seed": 7}
@@ -216,8 +219,11 @@ def gen(rng):
     accept = []
     if rng.random() < 0.5:
         accept = [rng.choice((1, 2, 3, 7, 100, 1460, 16384, 0)) for _ in range(rng.randrange(1, 8))]
-    return {"ops": ops, "key": rng.choice(("default", "default", "bytes", "str", "str8")), "trace": rng.random() < 0.3,
-            "accept": accept, "accept_cyclic": rng.random() < 0.5, "seed": rng.randrange(1 << 30)}
+    sc = {"ops": ops, "key": rng.choice(("default", "default", "bytes", "str", "str8")), "trace": rng.random() < 0.3,
+          "accept": accept, "accept_cyclic": rng.random() < 0.5, "seed": rng.randrange(1 << 30)}
+    if rng.random() < 0.08 and not any(o.get("again") == "other_connection" or o.get("build") == "relayed" for o in ops):
+        sc["prior"] = rng.choice(("send_timed_out", "big_send_timed_out"))  # re-used object: an earlier send timed out inside its frame
+    return sc
 
 
 def run(sc, choices=None):
@@ -261,6 +267,16 @@ def run(sc, choices=None):
         sock["accept_cyclic"] = bool(sc.get("accept_cyclic"))
     w, peers = std_world(seed=int(sc.get("seed", 1)), peer_cfg={"on_close": {"mode": "reply"}, "echo": any(o.get("build") == "relayed" for o in ops)}, sock=sock,
                          trace=bool(sc.get("trace")), step_cap=3_000_000)
+    prior_kind = sc.get("prior")
+    if prior_kind not in (None, "send_timed_out", "big_send_timed_out"):
+        raise InvalidScenario("prior")
+    if prior_kind:
+        from ..peers import WSPeer
+        import socket as _rs
+        w.net.sock_cfgs = {"0": {"accept": [3], "send_fail": {"after_bytes": 3, "errno": "TIMEOUT"}}}
+        w.net.add_host("prior.sim.test", [(_rs.AF_INET, "10.1.9.9")])
+        w.net.listen("10.1.9.9", 80, lambda conn_: WSPeer(w, {"script": [{"t": 3 * 65536, "end": "eof"}], "on_close": {"mode": "never"},
+                                                                "on_ping": {"mode": "never"}, "eof_on_client_eof": False}))
     keylog = []
     kr = random.Random(int(sc.get("seed", 1)) + 99)
 
@@ -293,6 +309,27 @@ def run(sc, choices=None):
             kw["get_mask_key"] = key_str8
         c = ws.WebSocket(**kw)
         c.settimeout(5)
+        ci = 0
+        if prior_kind:
+            # the object was used before: on its earlier connection a send timed out in the middle of its frame (3 of its
+            # bytes were taken), then a receive call found that connection gone; nothing of it belongs on this connection
+            try:
+                c.settimeout(2)
+                c.connect("ws://prior.sim.test/")
+                try:
+                    c.send_binary(b"P" * (70000 if prior_kind == "big_send_timed_out" else 40))
+                except SimAbort:
+                    raise
+                except BaseException:  # noqa
+                    res.probes["earlier_send_timed_out_midframe"] = 1
+                for _ in range(3):
+                    c.recv_data(True)
+            except SimAbort:
+                raise
+            except BaseException:  # noqa - that connection is gone
+                pass
+            c.settimeout(5)
+            ci = len(w.net.conns)
         c.connect(f"ws://{HOST}/")
         c2 = None
         if any(o.get("again") == "other_connection" for o in ops):
@@ -301,7 +338,7 @@ def run(sc, choices=None):
             c2 = ws.WebSocket(**kw2)
             c2.settimeout(5)
             c2.connect(f"ws://{HOST}/")
-        conn = w.net.conns[0]
+        conn = w.net.conns[ci]
         peer = peers[0]
         base = len(conn.rx)  # bytes of the HTTP request
         for (op, val, raw) in prepared:
@@ -408,7 +445,7 @@ def run(sc, choices=None):
                 break
             if name == "send_frame" and op.get("again") == "other_connection":
                 # the very same frame object is sent on another connection, which has its own key source
-                conn2 = w.net.conns[1]
+                conn2 = w.net.conns[ci + 1]
                 before = len(conn2.rx)
                 u0 = len(w.urandom_log)
                 k0 = len(keylog)
